@@ -47,6 +47,7 @@ type Monitor struct {
 	Enabled        map[string]bool
 	signed         map[string][]refmodel.BFTHeader // headers each honest validator key signed (read from the generator DB)
 	expectOwn      map[int]bool
+	tipOf          map[int]string // the tip of each node as its events tell it
 	nonceBefore    map[int]map[string]uint64
 	poolBefore     map[int][]*blockchain.Transaction // processable transactions of a node right before its generator ran
 	vmu            sync.Mutex
@@ -67,6 +68,7 @@ func NewMonitor(w *World, report Reporter) *Monitor {
 	m.signed = map[string][]refmodel.BFTHeader{}
 	m.expectOwn = map[int]bool{}
 	w.S.Hooks.Forged = func(n *Node, _ *blockchain.Block) { m.onForged(n) }
+	m.tipOf = map[int]string{}
 	m.poolBefore = map[int][]*blockchain.Transaction{}
 	m.nonceBefore = map[int]map[string]uint64{}
 	w.S.Hooks.BeforeForge = func(n *Node) {
@@ -125,6 +127,13 @@ func dumpDB(n *Node) dbDump {
 	for _, e := range n.BlockchainDB.VerifDump() {
 		d[string(e.K)] = e.V
 	}
+	// the application's state entries (prefix 0) and its (height, root) record (prefix 3) belong to "the exact previous
+	// state" as well; tree nodes and revert diffs of the application are bookkeeping
+	for _, e := range n.StateDB.VerifDump() {
+		if len(e.K) > 0 && (e.K[0] == 0 || e.K[0] == 3) {
+			d["app:"+string(e.K)] = e.V
+		}
+	}
 	return d
 }
 
@@ -139,6 +148,11 @@ func (m *Monitor) onEventSync(n *Node, msg interface{}) {
 			return
 		}
 		m.stepApplied[n.ID] = append(m.stepApplied[n.ID], tb)
+		// whatever path a block takes (gossip, block sync, fast switch, restore), it is only ever appended to its parent
+		if prev, ok := m.tipOf[n.ID]; ok && prev != string(e.Block.Header.PreviousBlockID) {
+			m.report("C03", "unlinked-block-appended", "previousBlockID", "%s appended block %d/%s whose previousBlockID is %s on top of its tip %s", n.Name, e.Block.Header.Height, short(e.Block.Header.ID), short(e.Block.Header.PreviousBlockID), short([]byte(prev)))
+		}
+		m.tipOf[n.ID] = string(e.Block.Header.ID)
 		if m.expectOwn[n.ID] && m.isOwnKey(n, e.Block.Header.GeneratorAddress) {
 			// the block this node generated in this step: its payload against the selection rule
 			pool := m.poolBefore[n.ID]
@@ -170,6 +184,7 @@ func (m *Monitor) onEventSync(n *Node, msg interface{}) {
 			}
 		}
 	case *consensus.EventBlockDeleteMessage:
+		m.tipOf[n.ID] = string(e.Block.Header.PreviousBlockID)
 		m.checkDelete(n, e.Block)
 	case *consensus.EventBlockFinalizeMessage:
 		m.finalEvents[n.ID] = append(m.finalEvents[n.ID], [2]uint32{e.Original, e.Next})
@@ -511,6 +526,7 @@ func be32(b []byte) uint32 {
 func (m *Monitor) afterRestart(n *Node) {
 	defer m.Raise()
 	tip := n.Tip()
+	m.tipOf[n.ID] = string(tip.ID)
 	tb := m.Tree.ByID[string(tip.ID)]
 	f := n.Finalized()
 	if prev, ok := m.nowF[n.ID]; ok && f < prev && m.Enabled["C04"] {
